@@ -377,6 +377,23 @@ def case_chains(B, cfg):
                if all(a is chains[c, d, j].t for j, a in enumerate(args))]
         B.fact('posterior predictive reads one joint raw row',
                len(hit) == 1, repr([T.show(a) for a in args]))
+        # a parameter map (model name -> dataset name): chained and swapped
+        # entries are simultaneous substitutions, whatever the dict order
+        mn = pm.get_parameter_names()
+        for label, pmap, src in (
+                ('chained', {mn[0]: names[1], mn[1]: names[0]}, [1, 0]),
+                ('swap, reversed dict order',
+                 dict([(mn[1], names[0]), (mn[0], names[1])]), [1, 0]),
+                ('identity', {mn[0]: names[0]}, [0, 1])):
+            ppm2 = chi.PosteriorPredictiveModel(pm, ds, param_map=pmap)
+            df2 = ppm2.sample([1.0], n_samples=1, seed=2)
+            a2 = list(c15._yargs(Sym.lift(list(df2['Value'])[0])).values())[0]
+            hit2 = [(c, d) for c in range(nc) for d in range(nd)
+                    if all(a2[j] is chains[c, d, src[j]].t
+                           for j in range(2))]
+            B.fact('param_map (%s): every model parameter reads the column '
+                   'it is mapped to' % label, len(hit2) == 1,
+                   repr([T.show(a) for a in a2]))
 
 
 def case_init_repro(B, cfg):
